@@ -277,6 +277,9 @@ pub fn run(args: &Args, rep: &mut Report) {
                 if !args.mine(idx) {
                     continue;
                 }
+                if idx % 256 == 0 && rep.over_budget() {
+                    return;
+                }
                 let listings: Vec<Listing> = [a, b, c3]
                     .iter()
                     .enumerate()
